@@ -249,6 +249,11 @@ impl Report {
                 println!("NOTE: property={} {}={} — these cases could not be evaluated because a prerequisite owned by another property failed; they are not counted as violations of this property", self.id, k, v);
             }
         }
+        for (k, v) in &self.acc.counters {
+            if k.starts_with("note_") {
+                println!("NOTE: property={} {}={} — an observation outside the statement; it does not affect the verdict", self.id, k, v);
+            }
+        }
         let exhaustive = !Deadline::was_hit();
         let mut cov = std::mem::take(&mut self.cov);
         cov.insert("evaluations".into(), json!(self.acc.evaluations));
